@@ -530,6 +530,8 @@ class ResultQuantifier(CanBehaveLikeAVariable[T], ABC):
             if isinstance(node, ConclusionSelector):
                 for seen_set in node.concluded_before.values():
                     seen_set.clear()
+                # the conclusions that were selected for the last result of an evaluation that was not run to its end
+                node._conclusion_.clear()
 
     def _evaluate__(
         self,
